@@ -18,6 +18,11 @@ def units(tier, seed):
     for u in cases.wf_units(tier, seed, struct_k=1 if tier == "quick" else 2, small_k=2 if tier == "quick" else 3, frame_k=1, stream_k=1 if tier == "thorough" else 0):
         u["seed"], u["tier"], u["mode"] = seed, tier, "wf"
         us.append(u)
+    # frames once more under a root path of several nodes (rows get deeper than any default path)
+    for u in cases.fault_units(tier, seed, k=0, with_prims=False, with_structs=False, with_streams=False):
+        if u["variant"] in ("plain", "sess1", "decrypt", "encrypted"):
+            us.append(dict(u, seed=seed, tier=tier, mode="wf", root_path="capture.entry[3].msg", label=u["label"] + "@root"))
+    us.append({"kind": "bytes", "mode": "bytes", "label": "all-byte-values", "seed": seed, "tier": tier})
     for u in cases.fault_units(tier, seed, with_prims=False):
         u["seed"], u["tier"], u["mode"] = seed, tier, "faults"
         u["label"] = "faults:" + u["label"]
@@ -38,6 +43,11 @@ def check_events(acc, root, m, r, d, mode):
     acc.count("streams_with_warnings" if nwarn else "streams_without_warnings")
     try:
         lines = list(Pretty.unmarshal(iter(r.raw)))
+        for l in lines:
+            plain = rows.ANSI.sub("", l)
+            if any(ord(ch) < 0x20 or ord(ch) == 0x7F for ch in plain):
+                acc.violation({"clause": "pretty:control-character-in-row", "mode": mode, "root": rc}, d(), f"a row contains a control character (a row is one line): {plain!r}"[:300], size=len(m))
+                break
     except Exception as e:  # noqa: BLE001
         acc.violation({"clause": "pretty-raises", "exc": type(e).__name__, "where": impl._where(e), "mode": mode}, d(), f"Pretty.unmarshal raised {type(e).__name__}: {e}", size=len(m))
         lines = None
@@ -76,15 +86,25 @@ def run_unit(unit):
     acc = Acc()
     loader.load()
     seed = unit["seed"]
+    if unit["mode"] == "bytes":
+        # every byte value inside a byte buffer (as the only byte, and all 256 in one buffer)
+        bufs = [bytes([v, v]) for v in range(256)] + [bytes(range(256))]
+        for buf in bufs:
+            m = len(buf).to_bytes(2, "big") + buf
+            r = impl.run("TPM2B_MAX_BUFFER", m, strict=True, keep_raw=True)
+            acc.shape(("bytes", buf[:2]))
+            check_events(acc, "TPM2B_MAX_BUFFER", m, r, lambda: {"harness": "print", "root": "TPM2B_MAX_BUFFER", "cc": None, "enc": False, "input": m.hex(), "mode": "strict"}, "strict")
+        acc.sample({"unit": unit["label"], "buffers": len(bufs)}, cap=1)
+        return acc
     if unit["mode"] == "wf":
         def on_case(case):
             loader.cache_clear()
-            r = impl.run(case.root, case.b, cc=case.cc, enc=case.enc, strict=True, keep_raw=True)
+            r = impl.run(case.root, case.b, cc=case.cc, enc=case.enc, strict=True, keep_raw=True, root_path=unit.get("root_path"), keep_root=True)
             if r.kind != "Done":
                 acc.count("skipped_not_accepted")
                 return
             acc.shape((case.root, tuple(e[2] for e in r.events)))
-            check_events(acc, case.root, case.b, r, lambda: dict(case.desc(), harness="print", mode="strict"), "strict")
+            check_events(acc, case.root, case.b, r, lambda: dict(case.desc(), harness="print", mode="strict", root_path=unit.get("root_path")), "strict")
 
         cases.explore_unit(unit, seed, on_case, acc)
     else:
@@ -127,6 +147,6 @@ def replay(case):
     loader.load()
     b = bytes.fromhex(case["input"])
     strict = case.get("mode") != "warn"
-    r = impl.run(case["root"], b, cc=case.get("cc"), enc=case.get("enc"), strict=strict, keep_raw=True)
+    r = impl.run(case["root"], b, cc=case.get("cc"), enc=case.get("enc"), strict=strict, keep_raw=True, root_path=case.get("root_path"), keep_root=True)
     check_events(acc, case["root"], b, r, lambda: case, "strict" if strict else "warn")
     return [(v["fp"], v["case"], v["detail"]) for v in acc.viol.values()]
